@@ -122,8 +122,8 @@ func (f *Frame) callFunc(c *cursor, site ssa.Instruction, callee *ssa.Function, 
 			spec = &FuncSpec{Key: key, Opaque: true}
 		}
 	}
-	if spec != nil && spec.Inline {
-		spec = nil
+	if spec != nil && (spec.Inline || cl != nil) {
+		spec = nil // closures are executed in place, with their captured variables
 	}
 	if spec != nil && spec.hasContract() {
 		return f.applyContract(c, site, callee, spec, f.argTerms(args), key)
@@ -167,7 +167,13 @@ func (f *Frame) inline(c *cursor, site ssa.Instruction, callee *ssa.Function, ar
 		for i, fv := range callee.FreeVars {
 			if i < len(cl.bindings) {
 				b := cl.bindings[i]
-				if lv, ok := cl.frame.lvals[b]; ok {
+				if base, ok := cl.frame.privBase(b); ok {
+					if g.privAlias == nil {
+						g.privAlias = map[ssa.Value]string{}
+					}
+					g.privAlias[fv] = base
+					g.vals[fv] = intLit(-7)
+				} else if lv, ok := cl.frame.lvals[b]; ok {
 					g.lvals[fv] = lv
 				} else {
 					g.vals[fv] = cl.frame.val(b)
@@ -440,10 +446,12 @@ func (f *Frame) builtin(c *cursor, site ssa.Instruction, call *ssa.CallCommon, b
 		r := e.declare(f.pfx+"recovered", SIface)
 		f.typeFacts(r, types.NewInterfaceType(nil, nil), st)
 		top := e.Spec
-		if f.recoverNil || top == nil || top.Recovers == "" {
-			if f.recoverNil {
+		for fr := f; fr != nil; fr = fr.caller {
+			if fr.recoverNil {
 				return []Term{nilIface}
 			}
+		}
+		if top == nil || top.Recovers == "" {
 			return []Term{r}
 		}
 		// the recovered value is nil (normal return) or a declared bail-out value
